@@ -592,4 +592,50 @@ theorem restoreWith_edgeData (keep : Bool) (s : GraphSnap) (hnd : (aKeys s.edgeD
   rw [hed]
   exact foldl_aInsert_nil s.edgeData hnd
 
+/-! ### blob log: the counters are functions of the index -/
+
+structure BlobLog.Inv (b : BlobLog) : Prop where
+  bytes : b.totalBytes = (b.index.map (fun p => p.2.len)).sum
+  count : b.chunkCount = b.index.length
+
+theorem BlobLog.new_inv (seg : Nat) : (BlobLog.new seg).Inv := ⟨rfl, rfl⟩
+
+theorem BlobLog.append_inv (b : BlobLog) (hash : Nat) (data : Bytes) (h : b.Inv) : (b.append hash data).Inv := by
+  unfold BlobLog.append
+  cases hf : aFind hash b.index with
+  | some loc => simpa using h
+  | none =>
+    have hk : hash ∉ aKeys b.index := by
+      intro hm
+      rw [← aFind_isSome_iff_mem, hf] at hm
+      simp at hm
+    simp only [Option.isSome_none, Bool.false_eq_true, if_false]
+    split
+    · refine ⟨?_, ?_⟩
+      · simp only; rw [aInsert_of_not_mem hash _ b.index hk]; simp [h.bytes]
+      · simp only; rw [aInsert_of_not_mem hash _ b.index hk]; simp [h.count]
+    · split
+      · refine ⟨?_, ?_⟩
+        · simp only; rw [aInsert_of_not_mem hash _ b.index hk]; simp [h.bytes]
+        · simp only; rw [aInsert_of_not_mem hash _ b.index hk]; simp [h.count]
+      · refine ⟨?_, ?_⟩
+        · simp only; rw [aInsert_of_not_mem hash _ b.index hk]; simp [h.bytes]
+        · simp only; rw [aInsert_of_not_mem hash _ b.index hk]; simp [h.count]
+
+theorem BlobLog.mark_inv (b : BlobLog) (hash : Nat) (h : b.Inv) : (b.markGarbage hash).Inv := by
+  unfold BlobLog.markGarbage
+  split
+  · exact ⟨h.bytes, h.count⟩
+  · exact h
+
+theorem BlobLog.run_inv (b : BlobLog) (ops : List BOp) (h : b.Inv) : (b.run ops).Inv := by
+  unfold BlobLog.run
+  induction ops generalizing b with
+  | nil => exact h
+  | cons op ops ih =>
+    apply ih
+    cases op with
+    | append hsh d => exact BlobLog.append_inv b hsh d h
+    | mark hsh => exact BlobLog.mark_inv b hsh h
+
 end Neumann.Snap
